@@ -280,6 +280,49 @@ def run_loop(ctx):
                     d.file, d.line)
 
 
+def run_to_stop_commands(ctx):
+    """QvmCpu.run tests the breakpoints after every instruction it
+    executes.  A command that is specified to run *until a breakpoint* must
+    therefore advance the machine through run() alone: an instruction
+    executed by a direct tick()/next() lands on an address whose
+    breakpoints are never tested."""
+    repo = ctx.repo
+    rule = 'C12.run-to-stop-commands-advance-through-run-only'
+    ctx.rule(rule, 'do_continue and do_step execute instructions only '
+             'through cpu.run(), which evaluates the breakpoints after every '
+             'instruction; they never call tick() or next() themselves '
+             '(stepi/nexti/next are the instruction-granular commands)')
+    cmd = repo.cls('qvm.dbg', 'Cmd')
+    n = 0
+    for name in ('do_continue', 'do_step'):
+        f = repo.find_method(cmd, name)
+        if f is None:
+            raise AnalysisError(f'anchor vanished: Cmd.{name}')
+        runs, direct = [], []
+        for c in ast.walk(f.node):
+            if isinstance(c, ast.Call) and isinstance(c.func, ast.Attribute):
+                if c.func.attr == 'run':
+                    runs.append(c)
+                elif c.func.attr in ('tick', 'next'):
+                    direct.append(c)
+        n += 1
+        construct = f'{f.file}:Cmd.{name}'
+        ctx.instance(rule, construct, sample={'run_calls': len(runs),
+                                              'direct': len(direct)})
+        if not runs:
+            ctx.finding(rule, construct + ':no-run',
+                        f'{name} no longer advances the machine through '
+                        f'cpu.run()', f.file, f.line)
+        for c in direct:
+            ctx.finding(rule, construct + f':{unparse(c.func)}',
+                        f'{name} executes an instruction with '
+                        f'{unparse(c)} outside cpu.run(): breakpoints at the '
+                        f'address reached by that instruction are never '
+                        f'tested, so the command can run past a breakpoint',
+                        f.file, c.lineno)
+    ctx.floor('run-to-stop commands examined', n, 2)
+
+
 def breakpoint_resolution(ctx):
     repo = ctx.repo
     rule = 'C12.line-breakpoint-scans-in-source-order'
@@ -335,6 +378,7 @@ def run(ctx):
         'breakpoint predicates are pure',
         'all progress commands carry @unhalted',
         'run() scans breakpoints only after a tick and never writes pc',
+        'continue/step advance the machine through run() only',
     ]
     ctx.not_decided = ['stop positions, progress and statement order of '
                        'stepping (properties of command histories)']
@@ -344,6 +388,7 @@ def run(ctx):
     pure_predicates(ctx, cg)
     halt_guard(ctx)
     run_loop(ctx)
+    run_to_stop_commands(ctx)
     breakpoint_resolution(ctx)
     return ('Transparency as a structural clause: effects (who-may-write) '
             'analysis of qvm/dbg.py and qvm/eval.py against the cpu API, '
